@@ -1,6 +1,8 @@
 (* EffectsReviewed.v — the potential shared-write sites (function#kind#ordinal, as produced by
    /verif/translator/effects) that are reachable from read-only methods on the reviewed tree,
-   each inspected and found NOT to write memory shared between goroutines.  This list is part
+   each inspected and found NOT to write memory shared between goroutines.  Writes through a
+   parameter whose every actual argument is a fresh allocation of the caller are discharged by the
+   analysis itself (parameter-conditional summaries) and no longer appear here.  This list is part
    of the trusted base; a site that is not listed makes theorem C18_read_only_methods fail. *)
 From Coq Require Import List String.
 Import ListNotations.
@@ -18,28 +20,17 @@ Definition reviewed_sites : list string := [
   "(*encrypted_leaseset.EncryptedLeaseSet).Bytes#append#0";
   "(*keys_and_cert.KeysAndCert).Bytes#append#0";
   "(*lease_set2.LeaseSet2).Bytes#append#0";
-  (* a closure appending to / storing its own captured local slice *)
-  "(*router_address.RouterAddress).String$1#append#0"; "(*router_address.RouterAddress).String$1#store#0";
-  (* DecryptInnerData parses the plaintext with ReadLeaseSet2 / ReadMapping / ReadCertificate:
-     these helpers store through pointers to values the enclosing parser has just allocated *)
-  "certificate.handleEmptyCertificateData#store#0"; "certificate.handleEmptyCertificateData#store#1";
-  "certificate.handleShortCertificateData#store#0"; "certificate.handleShortCertificateData#store#1";
-  "certificate.handleShortCertificateData#store#2"; "certificate.handleShortCertificateData#store#3";
-  "certificate.handleShortCertificateData#store#4";
-  "certificate.handleValidCertificateData#store#0"; "certificate.handleValidCertificateData#store#1";
-  "certificate.handleValidCertificateData#store#2";
+  (* DecryptInnerData parses the plaintext with ReadLeaseSet2 / ReadMapping: the mapping reader and
+     its helpers store into and append to the result variables of ReadMapping (named results and the
+     error / pair slices it has just created), reached through pointer parameters whose actual
+     arguments are results of in-module calls, which the derivation analysis cannot tell from the
+     caller's own data *)
   "data.ReadMapping#store#0"; "data.ReadMapping#store#1";
   "data.appendMaxPairsError#append#0";
-  "data.handleInsufficientData#append#0"; "data.handleInsufficientData#append#1"; "data.handleInsufficientData#store#0";
-  "data.logAndAppendMappingValueErrors#append#0";
+  "data.handleInsufficientData#store#0";
   "data.parseKeyValuePairs#append#0";
   "data.parseNextPair#append#0"; "data.parseNextPair#append#1";
-  "data.processNormalMappingData#append#0"; "data.processNormalMappingData#append#1"; "data.processNormalMappingData#store#0";
-  "data.storeEncounteredKey#mapupdate#0";
-  "lease_set2.parseDestinationField#store#0"; "lease_set2.parseEncryptionKeys#store#0";
-  "lease_set2.parseHeaderFields#store#0"; "lease_set2.parseHeaderFields#store#1"; "lease_set2.parseHeaderFields#store#2";
-  "lease_set2.parseLeases#store#0"; "lease_set2.parseOfflineSignature#store#0"; "lease_set2.parseOptionsMapping#store#0";
-  "lease_set2.parseSignatureAndFinalize#store#0"; "lease_set2.storeEncryptionKey#store#0"
+  "data.processNormalMappingData#store#0"
 ].
 
 Fixpoint contains (needle hay : string) : bool :=
